@@ -393,6 +393,9 @@ def finish(pid, tier, seed, acc, t0, w, broken=None):
     wall = time.time() - t0
     os.makedirs(os.path.join(VERIF, "evidence"), exist_ok=True)
     os.makedirs(os.path.join(VERIF, "replays"), exist_ok=True)
+    import glob
+    for old in glob.glob(os.path.join(VERIF, "replays", "%s-%d-*.json" % (pid, seed))):
+        os.remove(old)
     new_viol, known_hits = [], []
     for sig, v in sorted(acc["violations"].items()):
         if (pid, sig) in known:
